@@ -13,6 +13,7 @@ EXPLANATION = (
     "derivable. Writes at loop-carried positions inside Tags::from_parts / Filter::from_parts rely on the size "
     "function matching the writer (a relational invariant over two loops) and are reported UNDECIDED, never alarmed "
     "on. That accessors reproduce the parts is not decided.")
+EXPLANATION += " Also decided: no raw fixed-width arithmetic on a length, count or offset in these constructors can wrap."
 ASSUMPTIONS = ["A1: usize size arithmetic does not overflow"]
 
 ENTRY = [
